@@ -434,7 +434,8 @@ def _classify_c01(case, m):
 
 
 PARTS = {
-    "C01": dict(coq_props=["Properties_C01_chained"], files=FILES, rule=RULE_C01, generate=_gen_c01,
+    "C01": dict(coq_props=["Properties_C01_chained", "Properties_C01_csimple_src"], files=FILES, rule=RULE_C01,
+                generate=_gen_c01,
                 oracles=dict(ORACLES_C01, **SRC_ORACLES), classify=_classify_c01, search=_search(generate_C01),
                 trusted_base=SRC_TRUSTED,
                 assumptions=["32-bit entry points are the macros varintChained_getVarint32/putVarint32 "
